@@ -238,8 +238,46 @@ class Translator:
                 continue
             _bad(st, "statement outside vocabulary")
 
+    # ---- register_prior(name, prior, "param"): which module the generated closures act on
+    def prior_closures(self):
+        for need in ("register_prior", "sample_from_prior"):
+            if need not in self.methods:
+                raise TranslateError(f"Module.{need} not found")
+        rp = self.methods["register_prior"]
+        inner = {n.name: n for n in ast.walk(rp) if isinstance(n, ast.FunctionDef) and n is not rp}
+
+        def one(fname, pattern):
+            fn = inner.get(fname)
+            if fn is None:
+                raise TranslateError(f"Module.register_prior: inner function {fname} not found")
+            arg = fn.args.args[0].arg
+            body = _strip_doc(fn.body)
+            if len(body) != 1:
+                _bad(fn, f"{fname}: body outside vocabulary")
+            st = body[0]
+            txt = _src(st.value if isinstance(st, (ast.Return, ast.Expr)) else st)
+            if txt == pattern.format(m=arg):
+                return ".argument"
+            if txt == pattern.format(m="self"):
+                return ".registering"
+            _bad(st, f"{fname}: outside vocabulary")
+        reads = one("closure_new", "getattr({m}, param)")
+        writes = one("setting_closure_new", "{m}.initialize(**{{param: val}})")
+        sp = _strip_doc(self.methods["sample_from_prior"].body)
+        calls = [_src(x.value) for x in sp if isinstance(x, ast.Expr)]
+        if calls == ["setting_closure(self, prior.sample())"]:
+            sample = ".argument"       # the module `sample_from_prior` is called on is handed to the setting closure
+        else:
+            raise TranslateError(f"Module.sample_from_prior: call of the setting closure outside vocabulary: {calls}")
+        # the closures must be what is stored
+        if "self._priors[name] = (prior, closure, setting_closure)" not in _src(rp):
+            raise TranslateError("Module.register_prior: `_priors[name] = (prior, closure, setting_closure)` not found")
+        self.info_closures = {"closure_reads": reads, "setting_closure_writes": writes, "sample_from_prior_passes": sample}
+        return reads, writes, sample
+
     def run(self):
         self.check_get_module_and_name()
+        self.closures = self.prior_closures()
         fn = self.methods["initialize"]
         if fn.args.kwarg is None or fn.args.kwarg.arg != "kwargs" or [a.arg for a in fn.args.args] != ["self"]:
             _bad(fn, "signature is not initialize(self, **kwargs)")
@@ -276,7 +314,7 @@ class Translator:
         if uses_defer and not self.epilogue:
             raise TranslateError("Module.initialize: child kwargs are collected but never used")
         self.info = {"deferred": uses_defer, "statements": len(self.body), "registers": self.regs,
-                     "tensor_steps": self.tensor_steps, "float_steps": self.float_steps}
+                     "tensor_steps": self.tensor_steps, "float_steps": self.float_steps, **self.info_closures}
         return self.text()
 
     def text(self):
@@ -304,6 +342,12 @@ class Translator:
         A("def tensorSteps : List LeafStep := [" + ", ".join("." + s for s in self.tensor_steps) + "]")
         A("/-- float branch of the leaf chain: order of the bound check and the fill -/")
         A("def floatSteps : List LeafStep := [" + ", ".join("." + s for s in self.float_steps) + "]")
+        A("")
+        A("/-- `register_prior(name, prior, \"param\")`: the module the generated closure reads / the generated setting closure")
+        A("initializes / `sample_from_prior` hands to the setting closure (`.argument` = the module it is called with) -/")
+        A(f"def priorClosureReads : ClosureTarget := {self.closures[0]}")
+        A(f"def priorSettingClosureWrites : ClosureTarget := {self.closures[1]}")
+        A(f"def sampleFromPriorPasses : ClosureTarget := {self.closures[2]}")
         A("")
         A("end Gen.InitDispatch")
         return "\n".join(L) + "\n"
